@@ -61,6 +61,8 @@ pub struct SimNor {
     pub fail_at: Option<usize>,
     pub log: Vec<Op>,
     pub log_reads: bool,
+    /// running hash of the (address, length) of successful reads since it was last reset
+    pub rhash: u64,
 }
 
 impl SimNor {
@@ -76,6 +78,7 @@ impl SimNor {
             fail_at: None,
             log: vec![],
             log_reads: false,
+            rhash: 0,
         }
     }
 
@@ -132,6 +135,7 @@ impl SimNor {
         if self.fault() {
             return Err(SimErr::Hardware);
         }
+        self.rhash = ((self.rhash as u128 * 1000003 + a as u128 * 31 + buf.len() as u128) % 2305843009213693951u128) as u64;
         if self.log_reads {
             self.log.push(Op::Read(a, buf.len()));
         }
